@@ -27,7 +27,10 @@
      CD2Services / CD2Uris   the two LazySyncMaps of a d2.Client (sync.Map: atomic; C18 is about LazySyncMap itself);
      CSnap a         the serviceUris object at address a of Announce.v's heap;
      CRng            the state of the package-level *rand.Rand of d2 (v2/d2/serviceUris.go:11-13);
-     CRegistry       restlicodec.customTyperefAdapters (one sync.Map).
+     CRegistry       restlicodec.customTyperefAdapters (one sync.Map);
+     CTunnelBuf      a package-level (pooled) scratch buffer for tunnelled bodies.  The CURRENT code has none: the buffer of
+                     EncodeTunnelledQuery (tunnelling.go:18) is allocated per call and is part of CReq r RCallReq; the cell
+                     exists for the variant [pooled_tunnel] only.
 
    Out of the model (DESIGN.md section 7): what user code (a Filter, a resource method, a custom marshaler) does with
    ITS OWN state; the Go memory model itself (happens-before through sync.Map / sync.Mutex is the meaning given to
@@ -72,7 +75,8 @@ Inductive cellid :=
 | CD2Uris
 | CSnap (a : Announce.addr)
 | CRng
-| CRegistry.
+| CRegistry
+| CTunnelBuf.
 
 Inductive sync := Plain | Atomic | Locked (l : nat).
 
@@ -108,11 +112,14 @@ Record variant := {
   err_inplace : bool;      (* handler.go:127-133 as pinned: errRes.Message = ... written on the resource's object *)
   rng_unlocked : bool;     (* serviceUris.go:16-20 as pinned: rng.Float64() without rngLock *)
   shallow_handler : bool;  (* Handler() handing out the live tree / filters slice instead of a deep copy *)
-  state_in_root : bool     (* per-request state kept in a rootNode field *)
+  state_in_root : bool;    (* per-request state kept in a rootNode field *)
+  pooled_tunnel : bool     (* EncodeTunnelledQuery assembling the body in a recycled package-level buffer and returning
+                              a slice of it: the request built from it still reads the buffer when it is sent *)
 }.
 
 Definition current : variant :=
-  {| err_inplace := false; rng_unlocked := false; shallow_handler := false; state_in_root := false |}.
+  {| err_inplace := false; rng_unlocked := false; shallow_handler := false; state_in_root := false;
+     pooled_tunnel := false |}.
 
 Definition tree_owner (v : variant) (k : nat) : owner := if shallow_handler v then Live else Copy k.
 
@@ -310,8 +317,11 @@ Inductive resolver := RSimple | RD2 (w : Announce.addr) (attempts : nat).
 Definition call_fp (v : variant) (c : nat) (r : rid) (res : resolver) : list access :=
   [rd (CClient c)]
   ++ match res with RSimple => [rd (CHostUrl c)] | RD2 w n => resolve_fp v w n end
-  ++ [wr (CReq r RCallUrl); rd (CClient c); wr (CReq r RCallReq); rd (CClient c);
-      Acc (CTransport c) true Atomic; wr (CReq r RCallResp); rd (CClient c)].
+  ++ [wr (CReq r RCallUrl); rd (CClient c)]
+  ++ (if pooled_tunnel v then [wr CTunnelBuf] else [])          (* EncodeTunnelledQuery writing the body (tunnelling.go:18-31) *)
+  ++ [wr (CReq r RCallReq); rd (CClient c)]
+  ++ (if pooled_tunnel v then [rd CTunnelBuf] else [])          (* the transport reading the request body *)
+  ++ [Acc (CTransport c) true Atomic; wr (CReq r RCallResp); rd (CClient c)].
 
 (* custom_typerefs.go:40-47 loadAdapter: sync.Map.Load; :20-38 RegisterCustomTyperef: sync.Map.LoadOrStore *)
 Definition reg_lookup_fp : list access := [Acc CRegistry false Atomic].
